@@ -99,4 +99,33 @@ PROPS = {
             "the wallet flows (stream spendwallet) are monitor-only: a fixed table of lock configurations with the outcome NUT-11/14 prescribe, not a model comparison",
         ],
     },
+    "C11": {
+        "claimed": True,
+        "title": "Derivations match the Cashu spec: hash-to-curve, keyset id, NUT-13 secrets",
+        "lean": ["Gonuts.Props.C11", "Gonuts.Tie.Spec"],
+        "streams": ["deriv"],
+        "level": "proof",
+        "technique": "independent executable reference implementation in Lean 4 (Gonuts.Spec.*: SHA-256/512, HMAC, secp256k1, BIP32, "
+                     "hash_to_curve, keyset id, NUT-13, mint keysets) written from FIPS 180-4 / RFC 2104 / SEC 1-2 / BIP32 / NUT-00/02/13; "
+                     "Lean theorems about that specification; facts extracted from the Go glue proved equal to the constants the "
+                     "specification uses; differential stream real Go vs compiled Lean reference vs a third math/big implementation",
+        "design_ref": "DESIGN.md §5 C11, §4.6",
+        "text": "Spec-side theorems are proved (what a returned hash_to_curve point satisfies and that the first lifting counter wins, "
+                "counter = 4 bytes little endian and injective, keyset id invariant under every permutation of a key set with distinct "
+                "amounts and of shape \"00\"+14 hex, NUT-13 indices never wrap and secret/blinding factor are children 0/1 of "
+                "m/129372'/0'/id'/c', BIP32 index ranges and HMAC inputs, hash output lengths, 60 mint keys at m/0'/0'/idx'/j' with "
+                "amount 2^j). 'Go = spec for every input' is NOT proved - the Go functions are calls into dcrec/secp256k1, "
+                "btcutil/hdkeychain and crypto/sha256; that link is the static tie of the glue (Gonuts.Tie.Spec) plus the bit-for-bit "
+                "differential stream 'deriv'. The property is therefore decided at PARTIAL strength.",
+        "note": "strength: partial (for-all link Go = spec is correspondence, bounded by the generators of stream 'deriv'; "
+                "spec-side well-definedness is proved)",
+        "assumptions": COMMON_ASSUME + [
+            "the reference implementation Gonuts.Spec.* is a faithful reading of FIPS 180-4, RFC 2104, SEC 1/2, BIP32 and NUT-00/02/13; "
+            "it reproduces every published test vector of those documents at driver start-up (spec.selftest)",
+            "the driver runs scalar multiplication through a Jacobian/windowed fast path that is cross-checked against the affine "
+            "definition on edge and pseudo-random scalars at start-up and on random inputs in the stream, not proved equal to it",
+            "hdkeychain.HardenedKeyStart = 2^31 and the behaviour of the btcec/hdkeychain/sha256 libraries are outside /repo and are "
+            "covered only by the differential stream",
+        ],
+    },
 }
